@@ -362,6 +362,9 @@ func init() {
 			c := r.ConfFromParams()
 			c.Proto = "grpc"
 			c.Translate = r.Spec.P("xlate", "0") == "1"
+			if c.TLS == "auto" {
+				r.WatchPlaintext("broker=grpc tls=auto")
+			}
 			runBrokerPairs(r, c, "grpc")
 		},
 	})
@@ -412,6 +415,9 @@ func runC08(r *h.Run) {
 	w := r.W
 	c := r.ConfFromParams()
 	c.Proto, c.Mux = "grpc", true
+	if c.TLS == "auto" {
+		r.WatchPlaintext("broker=grpcmux tls=auto")
+	}
 	s := open(r, c)
 	if s == nil {
 		return
@@ -517,6 +523,18 @@ func runC08(r *h.Run) {
 				}
 			} else if ko.Val.(string) != fmt.Sprintf("id=%d", kc.id) {
 				r.Violate("misroute", ctx+" on re-ping", fmt.Sprintf("connection %d answered %q", kc.id, ko.Val))
+			}
+		}
+		// sometimes the dialling side closes an established connection before the next establishment
+		if len(keptConns) > 0 && r.Spec.P("fixed", "") != "1" && w.Range("pairs/close", 3) == 1 {
+			kc := keptConns[len(keptConns)-1]
+			keptConns = keptConns[:len(keptConns)-1]
+			w.Probe("mux.closed-before-next")
+			if kc.hostSide {
+				hostConns[kc.id].Close()
+				delete(hostConns, kc.id)
+			} else {
+				r.DoNoHang("CloseKept", 60*time.Second, ctx, func() (any, error) { return s.cmd.Do("closekept", fmt.Sprint(kc.id)) })
 			}
 		}
 		// time between establishments
